@@ -338,7 +338,7 @@ class C08(Check):
     technique = ('machine-checked proof in Coq about a hand-written Gallina model with explicit memory (allocation = list of '
                  'capacity+1 cells, attached range = immutable byte list, every access through bounds-checked rd/wr); model tied '
                  'to the code by an extracted-model vs ASan/UBSan-implementation correspondence check with guard bytes')
-    level_text = ('Theorems in Coq (18, no axioms), for every history of new/copy/attach/=/assign/prepend/append/resize/reserve/'
+    level_text = ('Theorems in Coq (21, no axioms), for every history of new/copy/attach/=/assign/prepend/append/resize/reserve/'
                   'removeFront/removeBack/clear/free/swap/== over any number of Buffer variables, all sizes and front/back offsets, '
                   'including v = v, v.append(v), v.prepend(v) and histories mixing attach with owning operations: '
                   '(1) C08_memory_safe(_step): the model never produces OutOfBounds / WriteForeign / Overlap / BadState - the only '
@@ -362,8 +362,10 @@ class C08(Check):
                   'capacity() after each call, the Server.cpp send backlog (uses append/removeFront only; not driven). Modelled as '
                   'input: the bytes handed to attach are fresh foreign memory that nobody else changes and that does not alias a '
                   'Buffer allocation; data pointers handed to assign/append/prepend do not point into the Buffer itself (except '
-                  'through the Buffer& overloads, which are modelled). Sizes are nat: wrap-around of pointer arithmetic for size '
-                  'arguments near 2^64 (removeFront(SIZE_MAX), resize(SIZE_MAX) making capacity+1 = 0) is outside the model. '
+                  'through the Buffer& overloads, which are modelled). Sizes are nat: removeFront/removeBack are driven with every usize '
+                  '(2^64-1, 2^64-size, 2^63; the drivers pass an argument above 10^6 to the extracted code as size+1, justified by '
+                  'C08_remove_clamp / C08_spec_remove_clamp); wrap-around of capacity+1 for resize/reserve/constructor arguments near '
+                  '2^64 (a request that cannot be allocated) is outside the model. '
                   'Trusted: Coq kernel, BufferSpec.v as the reading of the property text, extraction + OCaml driver, harness, '
                   'g++ sanitizers.')
     rule = ''
@@ -374,7 +376,7 @@ class C08(Check):
                    'and one past each branch condition, followed by append+prepend) + exhaustive 2-op scope over a 36-op alphabet; removeFront/removeBack arguments include 2^64-1, 2^64-size, 2^63; '
                    'a case is non-trivial when the implementation\'s own dump shows at least two of {head-room > 0, capacity slack, '
                    'attached window, emptied non-owning window} and it has >= 3 mutating ops; distinct = distinct op text. ')
-    assumptions = ['size arguments and data lengths stay far below 2^63 (no pointer-arithmetic wrap; sizes are nat in the model)',
+    assumptions = ['resize/reserve/constructor size arguments and data lengths stay far below 2^63 (capacity+1 does not wrap; sizes are nat in the model); removeFront/removeBack take every usize',
                    'memory handed to attach() is not modified or freed by anyone else while attached and does not alias a Buffer allocation',
                    'raw data pointers passed to assign/append/prepend do not point into the receiving Buffer',
                    'operator new[] succeeds (no allocation failure modelled)']
